@@ -461,6 +461,55 @@ pub fn gen(prop: &str, rng: &mut Rng, thorough: bool, out: &mut Sink) {
         }
         out.group(lines);
     }
+    // ---- byte-pair vocabularies that are NOT closed under their merges (pairs present, the triple missing) on
+    // single unbroken pieces long enough for the heap strategy: a merge made without a vocabulary lookup shows as
+    // an unknown id, a dropped stretch or an error although every unit is an entry
+    if prop == "C02" {
+        let nopen = if thorough { 400 } else { 40 };
+        for v in 0..nopen {
+            let letters = ['a', 'b', 'c'];
+            let mut toks: Vec<String> = letters.iter().map(|c| c.to_string()).collect();
+            let mut pairs: Vec<String> = Vec::new();
+            for x in letters {
+                for y in letters {
+                    pairs.push(format!("{}{}", x, y));
+                }
+            }
+            shuffle(rng, &mut pairs);
+            let npairs = rng.range(2, 6);
+            toks.extend(pairs.into_iter().take(npairs));
+            if rng.chance(1, 3) {
+                toks.push(format!("{}{}{}", rng.pick(&letters), rng.pick(&letters), rng.pick(&letters)));
+            }
+            // ranks = positions: single letters first, then the pairs in their shuffled order
+            let vocab: Vocab = toks.iter().enumerate().map(|(i, t)| Token { id: i as u32, bytes: t.as_bytes().to_vec() }).collect();
+            let mut config = Configuration::default();
+            config.fallback = match v % 4 {
+                0 => vec![Fallback::Unknown],
+                1 => vec![Fallback::Skip],
+                2 => vec![],
+                _ => vec![Fallback::Unknown, Fallback::Skip],
+            };
+            let specials = vec![SpecialToken { id: 5_000_000, bytes: b"<unk>".to_vec(), kind: SpecialTokenKind::Unknown, ident: None, score: 0.0, extract: false }];
+            let def = Definition { meta: Metadata::default(), model: Model::BytePair { vocab, chars: v % 2 == 0 }, specials, config };
+            let mut lines = Vec::new();
+            let tk = load(slot, "open-merges", def, &mut lines);
+            slot += 1;
+            if tk.tok.is_none() {
+                out.group(lines);
+                continue;
+            }
+            out.count("defs_bpe_open_merges");
+            for _ in 0..10 {
+                let n = rng.range(180, 260);
+                let text: String = (0..n).map(|_| *rng.pick(&letters)).collect();
+                if let Some(l) = enc_line(op, &tk, &text, false) {
+                    lines.push(l);
+                }
+            }
+            out.group(lines);
+        }
+    }
     // ---- tokenizers converted from generated Tokenizers sources that walk through every normalizer, pre-tokenizer,
     // post-processor and decoder variant of the converter (C18: "loaded successfully from a well-formed source")
     if prop == "C18" || prop == "C02" || prop == "C09" {
